@@ -388,12 +388,20 @@ def run(ck, facts):
             # first statement that generates anything
             gen_idx = next((i for i, x in enumerate(items) if any(x2.get("k") == "mcall" and x2.get("m") in ("add_file", "gen_struct_def", "gen_enum_def", "gen_opaque_def", "gen_impl", "gen_trait_def", "gen_enum", "gen_struct", "gen_opaque", "generate", "gen_ty", "render", "push", "insert", "attempt_build") for x2 in C.walk(x))), None)
             dis_idx = next((i for i, x in enumerate(items) if any(y.get("k") == "field" and y.get("n") == "disable" for y in C.walk(x)) and any(y.get("k") == "continue" for y in C.walk(x))), None)
+            # `for .. in all_types().filter(|(_, ty)| !ty.attrs().disable)`: disabled items never enter the body
+            for fc in C.walk(n["iter"]):
+                if fc.get("k") == "mcall" and fc.get("m") == "filter" and fc.get("a") and C.strip(fc["a"][0]).get("k") == "closure":
+                    cb = C.strip(C.strip(fc["a"][0])["body"])
+                    while cb.get("k") == "block" and not cb.get("s") and cb.get("e") is not None:
+                        cb = C.strip(cb["e"])
+                    if cb.get("k") == "un" and cb.get("op") == "Not" and any(y.get("k") == "field" and y.get("n") == "disable" for y in C.walk(cb["e"])):
+                        dis_idx = -1
             key = "%s/loop@%s" % (C.norm_path(f["path"]).replace("diplomat_tool::", ""), "traits" if any(c.endswith("all_traits") for c in it_calls) else "types")
             key += "#%d" % sum(1 for i in ck.instances if i["key"].startswith(key))
             ck.expect(dis_idx is not None and (gen_idx is None or dis_idx <= gen_idx), "R4", key, "tests disable first", "backend loop over %s generates output without first skipping disabled items" % ("traits" if "traits" in key else "types"), C.loc(f, n.get("ln")))
             # nothing that can fail (name formatting panics on reserved names, generators report errors) runs for an item before its disable test
             BENIGN = {"set_context_ty", "name", "as_str", "into", "attrs", "resolve_type", "resolve_trait", "clone", "to_string", "as_ref", "deref", "borrow", "try_into", "unwrap", "from", "id", "clear", "new", "methods", "default"}
-            early = sorted({(x2.get("m") or (C.callee(x2) or "").split("::")[-1]) for x in items[:dis_idx or 0] for x2 in C.walk(x) if x2.get("k") in ("mcall", "call")} - BENIGN)
+            early = sorted({(x2.get("m") or (C.callee(x2) or "").split("::")[-1]) for x in items[:max(dis_idx or 0, 0)] for x2 in C.walk(x) if x2.get("k") in ("mcall", "call")} - BENIGN)
             if dis_idx is not None:
                 ck.expect(not early, "R4", key + "/nothing-before-disable", "only context bookkeeping precedes the test", "for every item, also one disabled for this backend, the loop first calls %s: "
                           "an item switched off because this backend cannot represent it (reserved name, unsupported shape) still makes the run fail" % early, C.loc(f, n.get("ln")))
